@@ -268,7 +268,15 @@ fn random_te(rng: &mut StdRng, nv: usize, packed: bool) -> TE {
             let u = *[WordUse::Bytes, WordUse::Numeric, WordUse::UnsignedNumeric, WordUse::SignedNumeric].choose(rng).unwrap();
             TE::word(*widths.choose(rng).unwrap(), u)
         }
-        5 => [TE::bool(), TE::address(), TE::selector(), TE::function()].choose(rng).unwrap().clone(),
+        5 => {
+            // sized usages: usually at their inherent width, sometimes unsized or at a different width
+            let u = *[WordUse::Bool, WordUse::Address, WordUse::Selector, WordUse::Function].choose(rng).unwrap();
+            match rng.gen_range(0..4) {
+                0 => TE::word(None, u),
+                1 => TE::word(*widths.choose(rng).unwrap(), u),
+                _ => TE::word(u.size(), u),
+            }
+        }
         6 | 7 => TE::mapping(v(rng), v(rng)),
         8 => TE::dyn_array(v(rng)),
         9 => TE::FixedArray {
@@ -335,7 +343,7 @@ fn ground_truth_set(rng: &mut StdRng, nv: usize, contradict: bool) -> Vec<(usize
                         other => vec![*other, WordUse::Bytes],
                     };
                     let uu = *weaker_usage.choose(rng).unwrap();
-                    let ww = if uu.size().is_some() || rng.gen_bool(0.5) { Some(*w) } else { None };
+                    let ww = if rng.gen_bool(0.6) { Some(*w) } else { None };
                     if rng.gen_bool(0.1) { TE::Any } else { TE::word(ww, uu) }
                 }
                 T::Map(k, val) => TE::mapping(tv(*members(*k).choose(rng).unwrap()), tv(*members(*val).choose(rng).unwrap())),
@@ -352,7 +360,8 @@ fn ground_truth_set(rng: &mut StdRng, nv: usize, contradict: bool) -> Vec<(usize
         let g = rng.gen_range(0..ngroups);
         let v = *members(g).choose(rng).unwrap();
         let e = match &truth[g] {
-            T::W(_, w) => TE::word(Some(if *w == 8 { 16 } else { 8 }), WordUse::Bytes),
+            // a different width: on plain bytes, or keeping the true usage
+            T::W(u, w) => TE::word(Some(if *w == 8 { 16 } else { 8 }), if rng.gen_bool(0.5) { WordUse::Bytes } else { *u }),
             T::Map(..) => TE::dyn_array(tv(v)),
             T::Dyn(_) => TE::mapping(tv(v), tv(v)),
         };
